@@ -117,6 +117,34 @@ CHECKS = {
              "to a listed bank, identical results for equal seeds in-process and in fresh processes under several hash seeds.",
         note="Trusted: O-iban; pins restricted to field-sized conforming values (what the statement defines).",
         design="7/C13"),
+    "C16": dict(
+        technique="generated pairs/lists of objects and strings compared with the same operation on key strings; copy/pickle round "
+                  "trips on generated valid and unvalidated objects",
+        text="Hypothesis builds pairs and lists of IBAN/BIC/BBAN objects and plain strings with frequent equal-compact cross-class "
+             "pairs; ==, !=, <, <=, >, >=, hash, dict/set membership, sorted() and set size must equal the operation on the "
+             "compact strings. copy, deepcopy and pickle protocols 0-5 of valid and unvalidated IBANs, their BBANs, direct BBANs "
+             "and BICs must give the same class, equality, country and components.",
+        note="Trusted: key function k(object)=norm(source text), k(str)=str.",
+        design="7/C16"),
+    "C17": dict(
+        technique="complete enumeration of the bundled country and bank entries against a consistency predicate, reference-built "
+                  "IBAN per bank entry given to the library, generated data corruptions as sensitivity self-test",
+        text="Every country entry and every bank entry of the JSON files in the tree is checked against the stated consistency "
+             "rules; for every bank entry with a bank code a valid IBAN is built around it and the library must accept it and find "
+             "the bank (and a BIC) again; every registered national algorithm is run on nationally valid input. Exhaustive over "
+             "the data present at check time.",
+        note="Trusted: reference table/registry loaders and structure parser; generated corruptions of the data (each flagged) show "
+             "the predicate is not vacuous.",
+        design="7/C17"),
+    "C18": dict(
+        technique="Hypothesis-generated nested overlay documents / v2 documents against a reference merge; generated registry "
+                  "directories in package copies against the reference composition and behaviour probes",
+        text="merge_dicts and parse_v2 are compared with independent references on generated nested dictionaries (pairs, triples) "
+             "and v2 documents; copies of the package with generated overlay files sorting before/between/after the bundled ones "
+             "and generated bank files must expose exactly the reference table and bank list, validate/parse IBANs according to "
+             "the effective table, and leave unnamed countries untouched.",
+        note="Trusted: O-merge/O-reg; file names restricted so that every reasonable 'alpha-numeric' order coincides.",
+        design="7/C18"),
 }
 
 NOT_YET = "check not built yet in this round (planned in DESIGN.md section 7)"
